@@ -1,5 +1,5 @@
-(* Model of tensorly/tenalg/svd.py.  Definitions only.
-   Matrices are lists of rows.  LAPACK (svd, eigh), sqrt and the callable / randomized back ends are
+(* Model of tensorly/tenalg/svd.py (code as of commits b4786a7, 5074a8d, 45ef7df).  Definitions only.
+   Matrices are lists of rows.  LAPACK (svd, eigh, qr), sqrt, the Gaussian test matrix and a callable back end are
    NOT re-implemented: they enter as function arguments ("oracles") whose answers the harness tapes.
    truncated_svd is polymorphic in the element type: it cannot inspect, round or re-type an entry. *)
 From Coq Require Import List Arith Bool.
